@@ -141,7 +141,7 @@ def tlc(ctx, spec_dir, module, cfg, mode="check", workers=None, simulate=None, d
         cmd += ["-workers", "1", "-simulate", "num=%d" % simulate, "-depth", str(depth or 20),
                 "-seed", str(ctx.seed)]
     else:
-        cmd += ["-workers", str(workers or NCPU)]
+        cmd += ["-workers", str(min(workers or NCPU, int(os.environ.get("VERIF_TLC_WORKERS") or NCPU)))]
         if depth:
             cmd += ["-dfid", str(depth)] if False else []
     if coverage:
